@@ -5,6 +5,8 @@ cd /verif
 git -C /repo diff --quiet || { echo "/repo is dirty"; exit 2; }
 git -C /repo apply /verif/seeded/$S/patch.diff || { echo "$S: patch does not apply"; exit 2; }
 mkdir -p /tmp/seedruns
+cp evidence/$PID.json /tmp/seedruns/evidence-$PID.bak 2>/dev/null
 ./check $PID --tier $TIER > /tmp/seedruns/$S-$PID.log 2>&1; rc=$?
 git -C /repo checkout -- .
+cp /tmp/seedruns/evidence-$PID.bak evidence/$PID.json 2>/dev/null
 echo "$S $PID exit=$rc $(grep -c '^VIOLATION' /tmp/seedruns/$S-$PID.log) violation line(s); $(grep -m1 'violated:' /tmp/seedruns/$S-$PID.log | cut -c1-220)"
